@@ -131,7 +131,7 @@ def gen_storage_script(rng):
     absent = [key_hex(K, 4) if len(keys) < 5 else keys[0]]
     def probes():
         for k in keys + absent:
-            L.append('CF %s' % k); L.append('CFS %s' % k); L.append('R %s' % k)
+            L.append('CF %s' % k); L.append('CFS %s' % k); L.append('GF %s' % k); L.append('R %s' % k)
     seed = 0
     for step in range(rng.randrange(8, 30)):
         x = rng.random()
@@ -247,6 +247,8 @@ def oracle(lines, out, spec=None):
             fails.append('line %d: check_filters says definitely-absent for stored key %s' % (i, t[1]))
         elif t[0] == 'CFS' and t[1] in stored and o == 'CFS no':
             fails.append('line %d: check_filter says definitely-absent for stored key %s' % (i, t[1]))
+        elif t[0] == 'GF' and t[1] in stored and o == 'GF no':
+            fails.append('line %d: the filter returned by Storage::get_filter says definitely-absent for stored key %s' % (i, t[1]))
         if t[0] == 'hier':
             hier_oracle(hst, i, t, o, fails)
             continue
